@@ -34,6 +34,7 @@ type JobConfig struct {
 	Canary     bool           `json:"canary,omitempty"`
 	ExpectViolation bool      `json:"expect_violation,omitempty"` // canary twin
 	Trace      bool           `json:"-"`
+	NoReplay   bool           `json:"-"`
 	Concrete   *NativeWitness `json:"-"`
 	Name       string         `json:"name,omitempty"`
 }
@@ -53,6 +54,7 @@ type JobSpec struct {
 	Canary  bool              `json:"canary,omitempty"` // also run the falsified twin (once, on the first param tuple)
 	Tiers   []string          `json:"tiers,omitempty"`  // restrict to tiers
 	Bounds  string            `json:"bounds,omitempty"`
+	NoReplay bool             `json:"no_replay,omitempty"` // schedule-dependent: counterexamples are not replayed natively
 }
 
 type PkgSpec struct {
@@ -71,6 +73,7 @@ type CheckSpec struct {
 	Outside  []string  `json:"outside"`
 	Groups   []PkgSpec `json:"groups"`
 	Replay   string    `json:"replay,omitempty"`
+	Labels   []string  `json:"labels,omitempty"` // only violations whose label has one of these prefixes belong to this property
 }
 
 type jobState struct {
@@ -297,6 +300,7 @@ func expandSweep(js JobSpec) []map[string]int {
 func mkConfig(js JobSpec, params map[string]int, tier string) *JobConfig {
 	c := &JobConfig{Entry: js.Entry, Params: params, Unwind: js.Unwind, MaxSteps: js.MaxSteps, MaxPreempt: js.MaxPreempt,
 		Merge: !js.NoMerge, MapOrder: js.MapOrder, Solver: js.Solver, TimeoutMs: js.TimeoutMs, MaxPaths: js.MaxPaths}
+	c.NoReplay = js.NoReplay
 	if c.Unwind == 0 {
 		c.Unwind = 300
 	}
